@@ -61,10 +61,15 @@ def build_lean(targets):
     return rc == 0, out, dt
 
 
+def strip_comments(text):
+    text = re.sub(r"/-.*?-/", "", text, flags=re.S)
+    return "\n".join(l.split("--")[0] for l in text.splitlines())
+
+
 def theorem_names(path):
     names = []
     ns = []
-    for line in open(path):
+    for line in strip_comments(open(path).read()).splitlines():
         m = re.match(r"\s*namespace\s+(\S+)", line)
         if m:
             ns.append(m.group(1))
@@ -75,11 +80,6 @@ def theorem_names(path):
         if m:
             names.append(".".join(ns + [m.group(1)]))
     return names
-
-
-def strip_comments(text):
-    text = re.sub(r"/-.*?-/", "", text, flags=re.S)
-    return "\n".join(l.split("--")[0] for l in text.splitlines())
 
 
 def proof_check(pid, thorough):
@@ -134,11 +134,11 @@ def proof_check(pid, thorough):
     cur = None
     text = out.replace("\n  ", " ")
     for line in text.splitlines():
-        m = re.match(r"'([^']+)' depends on axioms: \[(.*)\]", line)
+        m = re.match(r"'(.+)' depends on axioms: \[(.*)\]", line)
         if m:
             res["axioms"][m.group(1)] = [a.strip() for a in m.group(2).split(",") if a.strip()]
             continue
-        m = re.match(r"'([^']+)' does not depend on any axioms", line)
+        m = re.match(r"'(.+)' does not depend on any axioms", line)
         if m:
             res["axioms"][m.group(1)] = []
     for n in names + lemma_names:
@@ -164,7 +164,12 @@ def proof_check(pid, thorough):
 
 def run_shard(args):
     mode, profile, seed, cases, prefix, extra = args
-    cmd = [HARNESS_BIN, mode, "--seed", str(seed), "--cases", str(cases), "--profile", profile, "--out", prefix] + extra
+    if mode == "ack":
+        cmd = [HARNESS_BIN, "ack", "--polls", str(cases), "--out", prefix]
+    elif mode == "pure":
+        cmd = [HARNESS_BIN, "pure", "--seed", str(seed), "--out", prefix] + extra
+    else:
+        cmd = [HARNESS_BIN, mode, "--seed", str(seed), "--cases", str(cases), "--profile", profile, "--out", prefix] + extra
     rc, out, dt = sh(cmd, timeout=900)
     if os.path.exists(prefix + ".in"):
         with open(prefix + ".model", "w") as mf, open(prefix + ".in") as inf:
@@ -176,6 +181,22 @@ def replay_lines(lines, prefix):
     """Runs the given input lines on the implementation (harness replay) and the model; returns cases."""
     with open(prefix + ".rin", "w") as f:
         f.write("\n".join(lines) + "\n")
+    ack_lines = [l for l in lines if l.startswith("A ")]
+    if ack_lines:
+        cases = []
+        for n, l in enumerate(ack_lines):
+            sub = f"{prefix}_a{n}"
+            sh([HARNESS_BIN, "ack", "--out", sub, "--schedule", l[2:]], timeout=120)
+            with open(sub + ".model", "w") as mf, open(sub + ".in") as inf:
+                subprocess.run([DRIVER], stdin=inf, stdout=mf, timeout=120)
+            cases += trace.load_cases(sub + ".in", sub + ".impl", sub + ".model")
+        return cases, 0
+    if any(l.startswith("P ") for l in lines):
+        # pure inputs are regenerated, not replayed line by line
+        sh([HARNESS_BIN, "pure", "--seed", "1", "--out", prefix], timeout=300)
+        with open(prefix + ".model", "w") as mf, open(prefix + ".in") as inf:
+            subprocess.run([DRIVER], stdin=inf, stdout=mf, timeout=300)
+        return trace.load_cases(prefix + ".in", prefix + ".impl", prefix + ".model"), 0
     rc, out, dt = sh([HARNESS_BIN, "replay", "--in", prefix + ".rin", "--out", prefix], timeout=300)
     with open(prefix + ".model", "w") as mf, open(prefix + ".in") as inf:
         subprocess.run([DRIVER], stdin=inf, stdout=mf, timeout=300)
@@ -194,6 +215,15 @@ def case_fails(case, pid, signature):
 
 def shrink(case, pid, signature, workdir, budget_s=25):
     """ddmin over the events of a failing case. Returns the list of input lines of the smallest failing case found."""
+    if not case.cfg_line:
+        # acknowledgement schedules and pure inputs are single self-contained lines: keep the failing ones
+        if signature is None:
+            bad = [s.ev for s in case.steps if s.impl != s.model][:5]
+        else:
+            mon = monitors.MONITORS[signature.split("/")[0]]
+            hits = [f["step"] for f in mon(case) if f["signature"] == signature][:5]
+            bad = [case.steps[i].ev for i in hits]
+        return [case.header] + bad, True
     t0 = time.time()
     head = [case.header, case.cfg_line]
     events = [s.ev for s in case.steps]
@@ -307,6 +337,9 @@ def main(argv):
         jobs = []
         for (mode, profile, quick_n, thorough_n, extra) in plan.get("runs", []):
             total = thorough_n if thorough else quick_n
+            if mode in ("ack", "pure"):
+                jobs.append((mode, profile, seed, total, os.path.join(workdir, f"{mode}_{profile}"), list(extra) + (["--thorough"] if thorough and mode == "pure" else [])))
+                continue
             per = max(1, min(40, total // 8 or 1))
             shard = 0
             done = 0
@@ -354,6 +387,8 @@ def main(argv):
         stats["events"] += len(c.steps)
         for s in c.steps:
             key = s.kind if s.kind != "worker" else "worker:" + (s.out.split()[1] if len(s.out.split()) > 1 else "?")
+            if s.kind == "pure":
+                key = "pure:" + (s.toks[0] if s.toks else "?")
             dist[key] = dist.get(key, 0) + 1
             o = s.out.split()
             if o and o[0] in ("panic", "workerpanic", "parked", "err"):
